@@ -247,6 +247,11 @@ func RunC05(env *Env, rep *Report) {
 		cs.Oracle = c05Oracle(cs.Prog)
 		cases = append(cases, cs)
 	}
+	for _, sh := range c01SpelledShapes() {
+		cs := c01CaseMode(sh, "c05/spelled/"+ShString(sh), false)
+		cs.Oracle = c05Oracle(cs.Prog)
+		cases = append(cases, cs)
+	}
 	// files mixing script statements and inline map scripts
 	nmixed := 0
 	for _, mf := range mixedFiles(maxNodes - 1) {
@@ -279,6 +284,16 @@ func RunC05(env *Env, rep *Report) {
 				cases = append(cases, cs)
 			}
 		}
+	}
+	// case values that are different spellings of one number (the parser's
+	// duplicate check is textual, so both are accepted and both bodies emitted)
+	for _, pair := range [][2]string{{"10", "0xA"}, {"1", "01"}, {"0x1", "1"}} {
+		cs := c03Case([]swEntry{{Body: "cmd"}, {Body: "cmd"}, {Default: true, Body: "cmd"}}, "first")
+		sw := scriptsOf(cs.Prog)[0].Body[0].(*Switch)
+		sw.Cases[0].Value, sw.Cases[1].Value = []Tok{L(pair[0])}, []Tok{L(pair[1])}
+		cs.Name = "c05/same-number-spellings/" + pair[0] + "," + pair[1]
+		cs.Oracle = c05Oracle(cs.Prog)
+		cases = append(cases, cs)
 	}
 	for m := 1; m <= 2; m++ {
 		for _, sh := range enumSwitchShapes(m, c03Bodies) {
